@@ -20,8 +20,13 @@
                               ends the task loop without reply and without cleanStream
      "LoopCountsRetries"      every retry uses up one of the 10 iterations of the task loop: num_retries >= 9 with
                               attempts that keep failing falls out of the loop without reply or clean-up
-     "NoCleanUpOnRetryAbort"  doRetry's exits for a retry that cannot start (deadline passed, no host) skip cleanUp():
-                              processError then drops the retry state and the retries resource is never given back
+     "NoCleanUpOnRetryAbort"  doRetry's exits for a retry that cannot start (deadline passed, no host) skip cleanUp().
+                              Harmful only together with "DropRetryStateWithoutRelease" (the pinned code): since the
+                              repair the dropped retry state releases what it holds, so this alone breaks no invariant
+     "DropRetryStateWithoutRelease"  processError drops the retry state for a pending local reply without releasing
+                              the retries resource: a reset taken in the same pass (e.g. the previous attempt's per-try
+                              callback completing right after doRetry gave up) has just admitted another retry, whose
+                              unit is then never given back (found by TLC at MaxA=3/Budget=2, reproduced on the code)
      "StaleFlagAfterRetry"    a timer callback that was already running when the retry was set up wins the
                               upstreamResponseReceived CAS, is ignored (setupRetry), and the flag stays set:
                               the next attempt's response and every later timer lose the CAS *)
@@ -141,7 +146,8 @@ PE2:
     CleanStream();                                   \* ResetStream -> cleanStream
     goto Exit;
   elsif direct then
-    direct := FALSE; rsSet := FALSE;                 \* "don't retry"
+    if rsSet /\ "DropRetryStateWithoutRelease" \notin Defects then rheld := 0; end if;   \* "don't retry": give back what the retry state holds ...
+    direct := FALSE; rsSet := FALSE;                 \* ... and drop it
     if phase # "upfilter" then
       phase := "upfilter"; goto LoopTop;
     elsif "SilentExitInUpFilter" \in Defects /\ err then
@@ -204,6 +210,7 @@ UpFilter:                                           \* send filters, then proces
 UpFilter2:
   if dsReset = 1 then CleanStream(); goto Exit;
   elsif direct then
+    if rsSet /\ "DropRetryStateWithoutRelease" \notin Defects then rheld := 0; end if;
     direct := FALSE; rsSet := FALSE;
     if "SilentExitInUpFilter" \in Defects /\ err then goto Exit; end if;
   elsif upDone then goto Exit;
@@ -510,7 +517,11 @@ PE2 == /\ pc["w"] = "PE2"
                   /\ pc' = [pc EXCEPT !["w"] = "Exit"]
                   /\ UNCHANGED << direct, setupRetry, rsSet, phase >>
              ELSE /\ IF direct
-                        THEN /\ direct' = FALSE
+                        THEN /\ IF rsSet /\ "DropRetryStateWithoutRelease" \notin Defects
+                                   THEN /\ rheld' = 0
+                                   ELSE /\ TRUE
+                                        /\ rheld' = rheld
+                             /\ direct' = FALSE
                              /\ rsSet' = FALSE
                              /\ IF phase # "upfilter"
                                    THEN /\ phase' = "upfilter"
@@ -539,8 +550,8 @@ PE2 == /\ pc["w"] = "PE2"
                                                                                ELSE /\ pc' = [pc EXCEPT !["w"] = "Exit"]
                                                                                     /\ phase' = phase
                                                    /\ UNCHANGED setupRetry
-                             /\ UNCHANGED << direct, rsSet >>
-                  /\ UNCHANGED << cleaned, beh, gt, pt, gauge, rheld >>
+                             /\ UNCHANGED << direct, rsSet, rheld >>
+                  /\ UNCHANGED << cleaned, beh, gt, pt, gauge >>
        /\ UNCHANGED << urr, dsReset, upReset, reason, respStarted, upDone, 
                        notify, cur, answered, remaining, deadlinePassed, 
                        respHdr, replies, attempts, loopI, err, clientGone, 
@@ -685,7 +696,11 @@ UpFilter2 == /\ pc["w"] = "UpFilter2"
                         /\ pc' = [pc EXCEPT !["w"] = "Exit"]
                         /\ UNCHANGED << direct, setupRetry, rsSet, phase >>
                    ELSE /\ IF direct
-                              THEN /\ direct' = FALSE
+                              THEN /\ IF rsSet /\ "DropRetryStateWithoutRelease" \notin Defects
+                                         THEN /\ rheld' = 0
+                                         ELSE /\ TRUE
+                                              /\ rheld' = rheld
+                                   /\ direct' = FALSE
                                    /\ rsSet' = FALSE
                                    /\ IF "SilentExitInUpFilter" \in Defects /\ err
                                          THEN /\ pc' = [pc EXCEPT !["w"] = "Exit"]
@@ -704,8 +719,8 @@ UpFilter2 == /\ pc["w"] = "UpFilter2"
                                                                ELSE /\ pc' = [pc EXCEPT !["w"] = "UpHdr"]
                                                          /\ UNCHANGED << setupRetry, 
                                                                          phase >>
-                                   /\ UNCHANGED << direct, rsSet >>
-                        /\ UNCHANGED << cleaned, beh, gt, pt, gauge, rheld >>
+                                   /\ UNCHANGED << direct, rsSet, rheld >>
+                        /\ UNCHANGED << cleaned, beh, gt, pt, gauge >>
              /\ UNCHANGED << urr, dsReset, upReset, reason, respStarted, 
                              upDone, notify, cur, answered, remaining, 
                              deadlinePassed, respHdr, replies, attempts, loopI, 
